@@ -210,17 +210,11 @@ func inputTerms(m *Machine, st *State, v Value) []Term {
 	return nil
 }
 
-func (m *Machine) atReturn(c *Config, fn *ssa.Function, fc *FuncContract, results []Value, opts verifyOpts) {
-	if os.Getenv("GOVC_TRACE") != "" {
-		fmt.Fprintf(os.Stderr, "TRACE return of %s in block %d (%s) path %d dead=%v pc=%d\n", fn.Name(), c.top.block.Index, c.top.block.Comment, m.cur.paths, c.st.dead, len(c.st.pc))
-	}
-	if fc == nil {
-		return
-	}
-	env := m.baseEnv(c)
+// bindLocals makes the source-level locals of fn visible in env at the program point (block rb of the frame on
+// top of c): the definition that dominates the point, or the only one executed on this path.
+func (m *Machine) bindLocals(c *Config, fn *ssa.Function, env *Env, rb *ssa.BasicBlock) {
 	// source-level locals whose definition dominates this return are visible to postconditions
 	// (ghost-out style: e.g. the address and kind computed by checkEncodeRefMap)
-	rb := c.top.block
 	for name, vals := range m.debugNames(fn) {
 		_, taken := env.vars[name]
 		var best ssa.Value
@@ -275,6 +269,17 @@ func (m *Machine) atReturn(c *Config, fn *ssa.Function, fc *FuncContract, result
 			}()
 		}
 	}
+}
+
+func (m *Machine) atReturn(c *Config, fn *ssa.Function, fc *FuncContract, results []Value, opts verifyOpts) {
+	if os.Getenv("GOVC_TRACE") != "" {
+		fmt.Fprintf(os.Stderr, "TRACE return of %s in block %d (%s) path %d dead=%v pc=%d\n", fn.Name(), c.top.block.Index, c.top.block.Comment, m.cur.paths, c.st.dead, len(c.st.pc))
+	}
+	if fc == nil {
+		return
+	}
+	env := m.baseEnv(c)
+	m.bindLocals(c, fn, env, c.top.block)
 	m.bindResults(env, fn.Signature, results)
 	m.cur.curResults = results
 	m.regionEnv = env
